@@ -1,6 +1,14 @@
 From Coq Require Import List NArith Bool Arith.
 From AMV Require Import Base.ListSet Model.Schema Model.Machine Run.EvalHist Spec.C01.
+From AMV Require Export Spec.C01r.
 Import ListNotations.
 
 Definition violations (k : hcase) : list N := nodup N.eq_dec (c01_codes (h_schema k) (h_obs k)).
-Definition check_all := check_hist violations.
+Inductive c01case := C01H (k : hcase) | C01R (r : rcase).
+
+Definition check_all (cs : list (N * c01case)) : list (N * N * N) :=
+  flat_map (fun ic : N * c01case =>
+    match snd ic with
+    | C01H k => check_hist violations [(fst ic, k)]
+    | C01R r => map (fun c => (fst ic, 2%N, c)) (reader_codes r)
+    end) cs.
